@@ -591,5 +591,9 @@ func c14(c *Ctx) {
 		for _, v := range o.viol {
 			c.Violate(v)
 		}
+		for _, cs := range o.cases {
+			c.Case(cs[0], cs[1], true)
+			c.Count("socket/rerequest-frame-vs-model")
+		}
 	}
 }
